@@ -54,8 +54,14 @@ def r08_5_slice_subscripts(ctx: Ctx, rule: str = "R08.5") -> None:
     for c in classes:
         for f in c.methods.values():
             for n in ast.walk(f.node):
-                if isinstance(n, ast.Subscript) and isinstance(n.slice, ast.Slice) and isinstance(n.value, ast.Attribute) and src(n.value.value) == "self":
-                    attr = n.value.attr
+                if not (isinstance(n, ast.Subscript) and isinstance(n.slice, ast.Slice)):
+                    continue
+                basev = n.value
+                # list(self.x)[a:b] / tuple(self.x)[a:b] window the *iteration* of x: rows for a sequence, keys for a mapping
+                if isinstance(basev, ast.Call) and isinstance(basev.func, ast.Name) and basev.func.id in ("list", "tuple") and len(basev.args) == 1 and not basev.keywords:
+                    basev = basev.args[0]
+                if isinstance(basev, ast.Attribute) and src(basev.value) == "self":
+                    attr = basev.attr
                     for d in classes:
                         if not m.is_subclass(d, c) or m.is_abstract(d):
                             continue
